@@ -3,3 +3,4 @@ import BlackIt.Wire
 import BlackIt.Parse
 import BlackIt.Model.Snap
 import BlackIt.Model.SearchSpace
+import BlackIt.Model.Dedup
